@@ -132,11 +132,12 @@ def finish(mod, pid, tier, seed, results, wall):
                               f"code: {cex.get('detail')}")
                 continue
             key = cex.get("key")
-            match = [k for k in kf if k["obligation"] == r["ob"] and k["key"] == key]
+            match = [k for k in kf if k["obligation"] == r["ob"] and key is not None and
+                     (k["key"] == key or (k["key"].endswith("*") and key.startswith(k["key"][:-1])))]
             if match:
                 n_known += 1
-                if key not in seen_known:
-                    seen_known.add(key)
+                if match[0]["key"] not in seen_known:
+                    seen_known.add(match[0]["key"])
                     lines.append(f"KNOWN-FINDING: property={pid} {r['ob']} {match[0]['what']}")
                 continue
             n_viol += 1
